@@ -1,6 +1,8 @@
 #![allow(dead_code)]
+mod dynafed;
 mod fmr;
 mod sha256c;
+mod tok;
 mod util;
 
 use util::Out;
@@ -22,6 +24,9 @@ fn main() {
         ("fmr", "replay") => fmr::replay(rest, &mut out),
         ("fmr", "big") => fmr::big(rest, &mut out),
         ("fmr", "record") => fmr::record(rest, &mut out),
+        ("dynafed", "params") => dynafed::replay_params(rest, &mut out),
+        ("dynafed", "headers") => dynafed::replay_headers(rest, &mut out),
+        ("dynafed", "record") => dynafed::record(rest, &mut out),
         (m, c) => {
             eprintln!("unknown command {} {}", m, c);
             std::process::exit(2);
